@@ -344,7 +344,7 @@ def run(tier, seed):
         "rule": "breadth-first search over histories of progress(i) (remaining -= 1) and tick (t += 1), each followed by the real update_PERT_data(t), from a freshly "
         "initialized real workflow, for every FS-only DAG on <=4 (thorough 5) nodes x every initial remaining vector over {0,1,2}, with the tasks' hash ranks in list order and (shallower) in reversed order so that the sets inside the passes are iterated both ways; states de-duplicated on (remaining, stored "
         "est/eft/lst/lft relative to t); after every update all values are compared with a longest-path CPM; plus the 'updated' phase of every step of FS-only simulations "
-        "explored over absence answers; plus chains and combs of 1100 (thorough 2300) tasks, in natural and reversed list order, and chains next to three stand-alone tasks; non-trivial = distinct states of DAGs with at least one link and positive work",
+        "explored over absence answers; plus chains and combs of 1100 (thorough 2300) tasks, in natural and reversed list order, and chains next to three stand-alone tasks; the last update made on a copy that went through JSON, and workflows grown task by task (update_PERT_data called directly); non-trivial = distinct states of DAGs with at least one link and positive work",
         "bounds": {"history_depth": "4 (n<=3), 3 (n=4)" if tier == "quick" else "5 (n<=3), 4 (n=4), 3 (n=5)", "dag_instances": len(hi), "sim_models": len(si), "H": H, "D": D},
         "assumptions": ["finish-to-start networks only (the statement's scope)"],
     }
